@@ -89,6 +89,30 @@ def check_text(out: Outcome, text: str, sub, assemble=True):
     return nt
 
 
+def structured_inputs(d: int):
+    """valid (or nearly valid) programs whose size is linear in d but which nest / chain d deep: work must stay
+    within the linear step budget (no exponential or quadratic blow-up in scopes, parentheses, macro chains...)"""
+    org = "*=0x008000\nk_out := 5\nlb_out:\n"
+    ins = []
+    ins.append(("nested-blocks-outer-symbol", org + "{\n" * d + ".db k_out\nlda.w lb_out\n.dl lb_out + k_out\n" + "}\n" * d))
+    ins.append(("nested-scopes", org + "".join(f".scope sc_{i} {{\n" for i in range(d)) + ".db k_out\n" + "}\n" * d))
+    ins.append(("nested-if", org + ".if k_out {\n" * d + ".db k_out\n" + "}\n" * d))
+    ins.append(("nested-for-single-iteration", org + "".join(f".for i_{i} := 0, 1 {{\n" for i in range(d)) + ".db k_out + i_0\n" + "}\n" * d))
+    ins.append(("macro-chain", org + ".macro m_0(p) {\n.db p, k_out\n}\n" + "".join(f".macro m_{i}(p) {{\nm_{i - 1}(p + 1)\n}}\n" for i in range(1, d)) + f"m_{d - 1}(1)\n"))
+    ins.append(("macro-in-blocks", org + ".macro m_x(p) {\n.db p, k_out\n}\n" + "{\n" * d + "m_x(k_out)\nm_x(lb_out & 0xff)\n" + "}\n" * d))
+    ins.append(("deep-parentheses", org + ".dl " + "(" * d + "k_out" + " + 1)" * d + "\n" + "lda.w #" + "(" * d + "1" + ")" * d + "\n"))
+    ins.append(("operator-chain", org + ".dl " + " + ".join(["k_out", "lb_out"] * d) + "\n.dl " + "-" * d + "1\n.dl " + " * ".join(["2"] * d) + "\n"))
+    ins.append(("unary-chain", org + "lda.w #" + "~" * d + "1\nlda.w #" + "-~" * (d // 2) + "1\n"))
+    ins.append(("many-labels-forward-refs", org + "".join(f".dl lb_{(i * 7) % d}\nlb_{i}:\n" for i in range(d))))
+    ins.append(("recursive-macro", org + ".macro m_r(p) {\n.if p {\n.db p\nm_r(p - 1)\n}\n}\n" + f"m_r({d})\n"))
+    ins.append(("unbalanced-open", org + "{\n" * d + ".db 1\n"))
+    ins.append(("unbalanced-close", org + ".db 1\n" + "}\n" * d))
+    ins.append(("comment-run", org + "/* a */\n" * d + "; c\n" * d + "nop ; x\n" * d))
+    ins.append(("string-with-escapes", org + ".ascii '" + "\\'" * d + "'\n.text '" + "a" * d + "\n"))
+    ins.append(("nested-code-arguments", org + ".macro m_c(p) {\n{{p}}\n}\n" + "m_c({\n" * min(d, 20) + ".db k_out\n" + "})\n" * min(d, 20)))
+    return ins
+
+
 def _shape(text: str) -> str:
     """root-cause key: which construct is open at the end of the input"""
     t = text
@@ -120,6 +144,8 @@ def enum_units(tier, seed):
     for first in range(n):
         units.append({"t": "tokens", "first": first, "maxlen": maxlen})
     units.append({"t": "samples", "tier": tier})
+    for depth in ((8, 16, 24, 32) if tier == "quick" else (8, 16, 24, 32, 48, 64)):
+        units.append({"t": "structured", "depth": depth})
     return {"units": units, "exhaustive": True}
 
 
@@ -245,6 +271,16 @@ def run_case(case) -> Outcome:
         out.nontrivial = nt
         out.labels.append("sample-mutants")
         out.sample = {"repository samples": "every truncation / deletion / duplication"}
+        return out
+    if t == "structured":
+        nt = 0
+        for name, text in structured_inputs(case["depth"]):
+            if check_text(out, text, {"t": "text", "text": text}):
+                nt += 1
+            nt += 0
+        out.nontrivial = len(structured_inputs(case["depth"]))
+        out.labels.append("structured-deep")
+        out.sample = {"depth": case["depth"], "kinds": [n for n, _ in structured_inputs(case["depth"])]}
         return out
     if t == "text":
         text = case["text"]
